@@ -5,6 +5,7 @@ import (
 	"go/ast"
 	"go/token"
 	"go/types"
+	"golang.org/x/tools/go/ssa"
 	"strings"
 
 	rast "github.com/open-policy-agent/opa/ast"
@@ -75,6 +76,92 @@ func checkC14(c *Ctx) {
 	}
 	c14Go(c, pk)
 	c14Rego(c)
+	c14NoPartialIndex(c)
+}
+
+// K5: the lexical index is all or nothing. A recover() that swallows a panic while the index is being built (and lets the
+// function return what it has so far) silently drops the locations of every source map visited after the bad one.
+func c14NoPartialIndex(c *Ctx) {
+	r, p := c.R, c.P
+	r.Rule("C14.K5", "no panic is swallowed while the lexical index is built (a partial index loses locations silently)", 1)
+	// the functions that build the index: those of internal/validator from which a store under "@lexical" or a map literal
+	// with the keys range and uri is reachable
+	var seeds []*ssa.Function
+	for _, fn := range p.ModuleFuncs() {
+		if RelPkg(fn) != "internal/validator" {
+			continue
+		}
+		hasRange, hasURI := false, false
+		for _, b := range fn.Blocks {
+			for _, ins := range b.Instrs {
+				if mu, ok := ins.(*ssa.MapUpdate); ok {
+					if k, ok := constStringOf(mu.Key); ok {
+						if k == "range" {
+							hasRange = true
+						}
+						if k == "uri" {
+							hasURI = true
+						}
+					}
+				}
+			}
+		}
+		if hasRange && hasURI {
+			seeds = append(seeds, fn)
+		}
+	}
+	if len(seeds) == 0 {
+		r.Unknown("C14.K5", "entry-builder", "", "no function storing a {range, uri} entry found")
+		return
+	}
+	// backwards closure inside the package
+	builders := map[*ssa.Function]bool{}
+	for _, s := range seeds {
+		builders[s] = true
+	}
+	changed := true
+	for changed {
+		changed = false
+		for _, fn := range p.ModuleFuncs() {
+			if builders[fn] || RelPkg(fn) != "internal/validator" {
+				continue
+			}
+			for _, callee := range p.ModuleCallees(fn) {
+				if builders[callee] {
+					builders[fn] = true
+					changed = true
+					break
+				}
+			}
+		}
+	}
+	swallow := 0
+	for _, fn := range sortedFuncs(builders) {
+		for _, b := range fn.Blocks {
+			for _, ins := range b.Instrs {
+				d, ok := ins.(*ssa.Defer)
+				if !ok {
+					continue
+				}
+				callee := d.Call.StaticCallee()
+				if callee == nil {
+					if mc, ok := d.Call.Value.(*ssa.MakeClosure); ok {
+						callee, _ = mc.Fn.(*ssa.Function)
+					}
+				}
+				if callee == nil || callee.Blocks == nil || !callsRecoverDirectly(callee) {
+					continue
+				}
+				if !assignsErrorOnRecover(callee) {
+					swallow++
+					r.Bad("C14.K5", FuncKey(fn)+"#swallowed-panic", p.Pos(d.Pos()), "a deferred recover() here discards the panic and lets the function return the index built so far: every source map after the malformed one has no entry, and results about those nodes lose their location without any error")
+				}
+			}
+		}
+	}
+	if swallow == 0 {
+		r.OK("C14.K5", "census", "", fmt.Sprintf("%d functions build or carry the lexical index: none recovers without reporting an error", len(builders)))
+	}
 }
 
 func c14Go(c *Ctx, pk *packages.Package) {
